@@ -78,10 +78,11 @@ func (e *Env) renderVarsScript(ps []Posting, mode string) (string, map[string]an
 
 // createBody renders the body of a create-transaction request (also used for bulk elements).
 func (e *Env) createBody(op Op, q url.Values) map[string]any {
+	op.ScriptOnly()
 	body := map[string]any{}
 	mode := apiMode(op)
 	switch {
-	case op.VarD != "":
+	case op.Script && op.VarD != "":
 		// the destination of the last posting travels as an account variable (possibly malformed): same request on every API
 		body["script"] = map[string]any{"plain": e.RenderScriptVarD(op.Ps) + RenderScriptMeta(op), "vars": map[string]any{"d": op.VarD}}
 	case strings.HasPrefix(mode, "vars-"):
